@@ -5,7 +5,9 @@
      Matrix  grp fn m rank      C29: sign matrix of btree.Compare / btree.CoerceComparer(v) over the edge values
                                 of one key type, and the independently computed natural rank of every value
      New     i                  C30: a fresh comparer object (IndexSpecification / JsonDBMapKey) = instance i
-     Cmp     i x y r            C30: instance i answered Compare(x, y) = r   (keys are arrays of value ids, see VT)
+     Cmp     i x y xi yi r      C30: instance i answered Compare(x, y) = r   (keys are arrays of value ids, see VT;
+                                xi, yi = number of the key within the trace, an index for the observation table only:
+                                the table kt checks that one number always names the same key)
      Scan    i keys             C30: a transaction of process i scanned the store: keys in scan order
      Find    i x found at       C30: Find(x, first=TRUE) in that transaction; at = key the cursor landed on
      EndStore                   C30: all scans and finds of one store scenario have been logged
@@ -27,25 +29,26 @@ EXTENDS KeyOrder
 CONSTANT TraceSem
 
 VARIABLES l,       \* next trace line to consume
-          obs,     \* observed relation: <<x, y>> -> [r, l] (first observation of the pair, over all instances)
-          sk,      \* keys seen in comparisons
+          obs,     \* observed relation: obs[xi][yi] = [r, l] first observation of the pair over all instances (l = 0: none)
+          kt,      \* kt[xi] = the key numbered xi (<<>>: not seen yet)
           scans,   \* instance -> scan order logged by Scan
           ties,    \* <<i, x, at>> : in instance i's transaction Find(x) landed on key at
           nviol    \* number of contradictions printed so far
 
 Trace == ndJsonDeserialize("trace.ndjson")
 
-tvars == <<vars, l, obs, sk, scans, ties, nviol>>
+tvars == <<vars, l, obs, kt, scans, ties, nviol>>
 
 IsEv(e) == l <= Len(Trace) /\ Trace[l].ev = e /\ l' = l + 1
 
 EmptyFn == [p \in {} |-> 0]
+NoObs == [r |-> 0, l |-> 0]
 
 Fresh == /\ mem  = [i \in Insts |-> FreshMem]
          /\ flds = [i \in Insts |-> FreshFlds]
          /\ hist = [i \in Insts |-> <<>>]
          /\ last = [a |-> "init"]
-         /\ obs = EmptyFn /\ sk = {} /\ scans = EmptyFn /\ ties = {} /\ nviol = 0
+         /\ obs = <<>> /\ kt = <<>> /\ scans = EmptyFn /\ ties = {} /\ nviol = 0
 
 TraceInit == l = 1 /\ TLCSet(1, 1) /\ Fresh
 
@@ -54,7 +57,9 @@ TraceReset == /\ IsEv("Reset")
               /\ flds' = [i \in Insts |-> FreshFlds]
               /\ hist' = [i \in Insts |-> <<>>]
               /\ last' = [a |-> "init"]
-              /\ obs' = EmptyFn /\ sk' = {} /\ scans' = EmptyFn /\ ties' = {}
+              /\ obs' = [a \in 1..Trace[l].nk |-> [b \in 1..Trace[l].nk |-> NoObs]]    \* nk = number of keys in the trace
+              /\ kt' = [a \in 1..Trace[l].nk |-> <<>>]
+              /\ scans' = EmptyFn /\ ties' = {}
               /\ UNCHANGED nviol
 
 V(ax, w1, w2, exp) == [ax |-> ax, l |-> l, w1 |-> w1, w2 |-> w2, exp |-> exp]
@@ -73,43 +78,47 @@ TraceMatrix ==
          v4 == IF AgreesWith(M, rk) THEN {} ELSE LET p == CHOOSE p \in BadAgree(M, rk) : TRUE
                                                  IN {V("natural-order", p[1], p[2], Sgn(rk[p[1]] - rk[p[2]]))}
      IN Report(v1 \cup v2 \cup v3 \cup v4)
-  /\ UNCHANGED <<vars, obs, sk, scans, ties>>
+  /\ UNCHANGED <<vars, obs, kt, scans, ties>>
 
 -----------------------------------------------------------------------------
 (* C30, comparer level *)
 TraceNew == /\ IsEv("New") /\ New(Trace[l].i)
-            /\ UNCHANGED <<obs, sk, scans, ties, nviol>>
-
-Known(o, a, b) == <<a, b>> \in DOMAIN o
+            /\ UNCHANGED <<obs, kt, scans, ties, nviol>>
 
 TraceCmpOpen ==
   /\ TraceSem = "open"
   /\ IsEv("Cmp")
   /\ LET x == Trace[l].x
          y == Trace[l].y
+         xi == Trace[l].xi
+         yi == Trace[l].yi
          r == Sgn(Trace[l].r)
-         p == <<x, y>>
          nk == NatKey(x, y)
-         conflict == Known(obs, x, y) /\ obs[p].r # r
-         obs2 == IF Known(obs, x, y) THEN obs ELSE obs @@ (p :> [r |-> r, l |-> l])
-         G(a, b) == obs2[<<a, b>>].r
-         L(a, b) == obs2[<<a, b>>].l
+         K == DOMAIN obs
+         conflict == obs[xi][yi].l > 0 /\ obs[xi][yi].r # r
+         obs2 == IF obs[xi][yi].l > 0 THEN obs ELSE [obs EXCEPT ![xi][yi] = [r |-> r, l |-> l]]
+         Known(a, b) == obs2[a][b].l > 0
+         G(a, b) == obs2[a][b].r
+         L(a, b) == obs2[a][b].l
          \* triangles that contain the new edge (x, y): as first premise, second premise, conclusion
-         bad1 == {z \in sk : Known(obs2, y, z) /\ Known(obs2, x, z) /\ ~TransOK(r, G(y, z), G(x, z))}
-         bad2 == {z \in sk : Known(obs2, z, x) /\ Known(obs2, z, y) /\ ~TransOK(G(z, x), r, G(z, y))}
-         bad3 == {z \in sk : Known(obs2, x, z) /\ Known(obs2, z, y) /\ ~TransOK(G(x, z), G(z, y), r)}
+         bad1 == {z \in K : Known(yi, z) /\ Known(xi, z) /\ ~TransOK(r, G(yi, z), G(xi, z))}
+         bad2 == {z \in K : Known(z, xi) /\ Known(z, yi) /\ ~TransOK(G(z, xi), r, G(z, yi))}
+         bad3 == {z \in K : Known(xi, z) /\ Known(z, yi) /\ ~TransOK(G(xi, z), G(z, yi), r)}
          v0 == IF x = y /\ r # 0 THEN {V("reflexivity", 0, 0, 0)} ELSE {}
          v1 == IF nk.def /\ r # nk.r THEN {V("natural-order", 0, 0, nk.r)} ELSE {}
-         v2 == IF conflict THEN {V("same-answer", obs[p].l, 0, obs[p].r)} ELSE {}
-         v3 == IF x # y /\ Known(obs, y, x) /\ obs[<<y, x>>].r # -r THEN {V("antisymmetry", obs[<<y, x>>].l, 0, -obs[<<y, x>>].r)} ELSE {}
+         v2 == IF conflict THEN {V("same-answer", obs[xi][yi].l, 0, obs[xi][yi].r)} ELSE {}
+         v3 == IF xi # yi /\ obs[yi][xi].l > 0 /\ obs[yi][xi].r # -r THEN {V("antisymmetry", obs[yi][xi].l, 0, -obs[yi][xi].r)} ELSE {}
          v4 == IF conflict THEN {}
-               ELSE IF bad1 # {} THEN LET z == CHOOSE z \in bad1 : TRUE IN {V("transitivity", L(y, z), L(x, z), 0)}
-               ELSE IF bad2 # {} THEN LET z == CHOOSE z \in bad2 : TRUE IN {V("transitivity", L(z, x), L(z, y), 0)}
-               ELSE IF bad3 # {} THEN LET z == CHOOSE z \in bad3 : TRUE IN {V("transitivity", L(x, z), L(z, y), 0)}
+               ELSE IF bad1 # {} THEN LET z == CHOOSE z \in bad1 : TRUE IN {V("transitivity", L(yi, z), L(xi, z), 0)}
+               ELSE IF bad2 # {} THEN LET z == CHOOSE z \in bad2 : TRUE IN {V("transitivity", L(z, xi), L(z, yi), 0)}
+               ELSE IF bad3 # {} THEN LET z == CHOOSE z \in bad3 : TRUE IN {V("transitivity", L(xi, z), L(z, yi), 0)}
                ELSE {}
-     IN /\ Report(v0 \cup v1 \cup v2 \cup v3 \cup v4)
+     IN /\ kt[xi] \in {<<>>, x} /\ kt[yi] \in {<<>>, y} /\ (xi = yi <=> x = y)     \* the numbering is a bijection
+        /\ kt[xi] = <<>> => \A a \in DOMAIN kt : kt[a] # x
+        /\ kt[yi] = <<>> => \A a \in DOMAIN kt : kt[a] # y
+        /\ kt' = [kt EXCEPT ![xi] = x, ![yi] = y]
+        /\ Report(v0 \cup v1 \cup v2 \cup v3 \cup v4)
         /\ obs' = obs2
-        /\ sk' = sk \cup {x, y}
   /\ UNCHANGED <<vars, scans, ties>>
 
 MismOf(a, x, y) == a.mism \cup {<<f, "absent", CK(x[f]), CK(y[f])>> : f \in IF Mode = "default" THEN IgnoredFields(a.fl, x, y) ELSE {}}
@@ -124,7 +133,7 @@ TraceCmpMem ==
      IN /\ (~Uniform(a, x, y) => PrintT(<<"MISM", l, ToJson(MismOf(a, x, y))>>))
         /\ (a.r # Sgn(Trace[l].r) => PrintT(<<"DIFF", l, a.r, Trace[l].r>>))
         /\ Step(i, x, y, a)
-  /\ UNCHANGED <<hist, obs, sk, scans, ties, nviol>>
+  /\ UNCHANGED <<hist, obs, kt, scans, ties, nviol>>
 
 -----------------------------------------------------------------------------
 (* C30, store level: what transactions of different processes see of one store *)
@@ -139,7 +148,7 @@ TraceScan ==
      IN /\ Report(IF TraceSem = "open" /\ bad # {}
                   THEN LET p == CHOOSE p \in bad : TRUE IN {V("scan-order", p[1], p[2], 0)} ELSE {})
         /\ scans' = (Trace[l].i :> ks) @@ scans
-  /\ UNCHANGED <<vars, obs, sk, ties>>
+  /\ UNCHANGED <<vars, obs, kt, ties>>
 
 TraceFind ==
   /\ IsEv("Find")
@@ -148,7 +157,7 @@ TraceFind ==
      IN /\ Report(IF TraceSem = "open" /\ i \in DOMAIN scans /\ x \in Range(scans[i]) /\ ~Trace[l].found
                   THEN {V("find-miss", 0, 0, 0)} ELSE {})
         /\ ties' = IF Trace[l].found THEN ties \cup {<<i, x, Trace[l].at>>} ELSE ties
-  /\ UNCHANGED <<vars, obs, sk, scans>>
+  /\ UNCHANGED <<vars, obs, kt, scans>>
 
 Tied(i, u, v) == \E t \in ties : t[1] = i /\ t[2] = u /\ \E t2 \in ties : t2[1] = i /\ t2[2] = v /\ t2[3] = t[3]
 
@@ -162,7 +171,7 @@ TraceEndStore ==
                         /\ ~Tied(q[1], u, v) /\ ~Tied(q[2], u, v)}
      IN Report(IF TraceSem = "open" /\ bad # {}
                THEN LET q == CHOOSE q \in bad : TRUE IN {V("scan-disagree", q[1], q[2], 0)} ELSE {})
-  /\ UNCHANGED <<vars, obs, sk, scans, ties>>
+  /\ UNCHANGED <<vars, obs, kt, scans, ties>>
 
 -----------------------------------------------------------------------------
 TraceNext == \/ TraceReset \/ TraceMatrix \/ TraceNew \/ TraceCmpOpen \/ TraceCmpMem
